@@ -317,6 +317,9 @@ class Scenario:
                         progress = True
             if not progress:
                 self.sem.append((len(self.ops), "quiescent"))
+                # one more look at the ready queue AFTER the empty drains: the monitor's calm points
+                # (drained, nothing owed, router idle since) need it
+                self.consume()
                 return True
         return False
 
@@ -350,6 +353,11 @@ class Scenario:
         steps = 0
         while steps < self.size and not self.dead:
             steps += 1
+            if r.chance(1, 45):
+                # checkpoint: run to idle in mid-history, so that losses which a later disconnect
+                # or takeover would hide are observable (calm-point completeness)
+                self.settle()
+                continue
             live = self.live()
             x = r.below(total)
             act = 0
